@@ -9,23 +9,24 @@ From DA Require Import Base.PyRT Base.Val Model.Sem Model.PdPrim Model.PandasExe
 Local Open Scope string_scope.
 Local Open Scope list_scope.
 
+
 (* ------------------------------------------------------------------ the pairs of rows a merge produces *)
 Section Pairs.
   Context {A B : Type}.
-  Variables (lk : A -> list val) (rk : B -> list val).
+  Variable m : A -> B -> bool.                              (* the match test *)
+  Variables (lk : A -> list val) (rk : B -> list val).      (* the keys, used only to ORDER the rows of an outer merge *)
   Definition pair := (option A * option B)%type.
-  Definition mt (a : A) (b : B) : bool := keys_eqv (lk a) (rk b).
 
   Definition pairs_inner (la : list A) (lb : list B) : list pair :=
-    flat_map (fun a => map (fun b => (Some a, Some b)) (filter (mt a) lb)) la.
+    flat_map (fun a => map (fun b => (Some a, Some b)) (filter (m a) lb)) la.
   Definition pairs_leftj (la : list A) (lb : list B) : list pair :=
-    flat_map (fun a => match filter (mt a) lb with [] => [(Some a, None)] | ms => map (fun b => (Some a, Some b)) ms end) la.
+    flat_map (fun a => match filter (m a) lb with [] => [(Some a, None)] | ms => map (fun b => (Some a, Some b)) ms end) la.
   Definition pairs_rightj (la : list A) (lb : list B) : list pair :=
-    flat_map (fun b => match filter (fun a => mt a b) la with [] => [(None, Some b)] | ms => map (fun a => (Some a, Some b)) ms end) lb.
+    flat_map (fun b => match filter (fun a => m a b) la with [] => [(None, Some b)] | ms => map (fun a => (Some a, Some b)) ms end) lb.
   Definition pairs_right_only (la : list A) (lb : list B) : list pair :=
-    flat_map (fun b => match filter (fun a => mt a b) la with [] => [(None, Some b)] | _ => [] end) lb.
+    flat_map (fun b => match filter (fun a => m a b) la with [] => [(None, Some b)] | _ => [] end) lb.
   Definition pairs_left_only (la : list A) (lb : list B) : list pair :=
-    flat_map (fun a => match filter (mt a) lb with [] => [(Some a, None)] | _ => [] end) la.
+    flat_map (fun a => match filter (m a) lb with [] => [(Some a, None)] | _ => [] end) la.
   Definition pair_key (p : pair) : list val :=
     match p with (Some a, _) => lk a | (None, Some b) => rk b | (None, None) => [] end.
   Definition gen_pairs (how : merge_how) (la : list A) (lb : list B) : list pair :=
@@ -49,7 +50,7 @@ Section Pairs.
   Lemma leftj_perm la lb : Permutation (pairs_leftj la lb) (pairs_inner la lb ++ pairs_left_only la lb).
   Proof.
     unfold pairs_leftj, pairs_inner, pairs_left_only. eapply perm_trans; [|apply perm_flat_map_app].
-    apply perm_flat_map_ext. intros a. destruct (filter (mt a) lb); simpl; [apply Permutation_refl|rewrite app_nil_r; apply Permutation_refl].
+    apply perm_flat_map_ext. intros a. destruct (filter (m a) lb); simpl; [apply Permutation_refl|rewrite app_nil_r; apply Permutation_refl].
   Qed.
 
   (* exchanging the two nested loops *)
@@ -64,20 +65,20 @@ Section Pairs.
       eapply perm_trans; [|apply Permutation_app_head, IHy]. apply Permutation_app_swap_app.
   Qed.
 
-  Lemma inner_as_nested la lb : pairs_inner la lb = flat_map (fun a => flat_map (fun b => if mt a b then [(Some a, Some b)] else []) lb) la.
+  Lemma inner_as_nested la lb : pairs_inner la lb = flat_map (fun a => flat_map (fun b => if m a b then [(Some a, Some b)] else []) lb) la.
   Proof.
     unfold pairs_inner. apply flat_map_ext. intros a. induction lb as [|b lb IH]; simpl; [reflexivity|].
-    destruct (mt a b); simpl; rewrite IH; reflexivity.
+    destruct (m a b); simpl; rewrite IH; reflexivity.
   Qed.
   Lemma rightj_perm la lb : Permutation (pairs_rightj la lb) (pairs_inner la lb ++ pairs_right_only la lb).
   Proof.
-    assert (Permutation (flat_map (fun b => map (fun a => (Some a, Some b)) (filter (fun a => mt a b) la)) lb) (pairs_inner la lb)) as Pi.
+    assert (Permutation (flat_map (fun b => map (fun a => (Some a, Some b)) (filter (fun a => m a b) la)) lb) (pairs_inner la lb)) as Pi.
     { rewrite inner_as_nested. eapply perm_trans; [|apply Permutation_sym, flat_map_swap].
       apply perm_flat_map_ext. intros b. induction la as [|a la IH]; simpl; [constructor|].
-      destruct (mt a b); simpl; [constructor; exact IH|exact IH]. }
+      destruct (m a b); simpl; [constructor; exact IH|exact IH]. }
     eapply perm_trans; [|apply Permutation_app_tail, Pi]. unfold pairs_rightj, pairs_right_only.
     eapply perm_trans; [|apply perm_flat_map_app].
-    apply perm_flat_map_ext. intros b. destruct (filter (fun a => mt a b) la); simpl; [apply Permutation_refl|rewrite app_nil_r; apply Permutation_refl].
+    apply perm_flat_map_ext. intros b. destruct (filter (fun a => m a b) la); simpl; [apply Permutation_refl|rewrite app_nil_r; apply Permutation_refl].
   Qed.
 
   Lemma gen_pairs_perm how la lb : Permutation (gen_pairs how la lb) (sem_pairs how la lb).
@@ -88,21 +89,48 @@ Section Pairs.
     - cbn [app]. apply rightj_perm.
     - eapply perm_trans; [apply stable_sort_perm|]. rewrite app_assoc. apply Permutation_app_tail, leftj_perm.
   Qed.
+
+  Lemma sem_pairs_matched how la lb a b : In (Some a, Some b) (sem_pairs how la lb) -> m a b = true.
+  Proof.
+    unfold sem_pairs. rewrite !in_app_iff. intros [I|[I|I]].
+    - unfold pairs_inner in I. apply in_flat_map in I. destruct I as [a' [_ I]]. apply in_map_iff in I. destruct I as [b' [E I]].
+      inversion E; subst. apply filter_In in I. tauto.
+    - exfalso. destruct how; try contradiction; unfold pairs_left_only in I; apply in_flat_map in I; destruct I as [a' [_ I]];
+        destruct (filter _ lb); try contradiction; destruct I as [E|[]]; discriminate.
+    - exfalso. destruct how; try contradiction; unfold pairs_right_only in I; apply in_flat_map in I; destruct I as [b' [_ I]];
+        destruct (filter _ la); try contradiction; destruct I as [E|[]]; discriminate.
+  Qed.
+  Lemma sem_pairs_from how la lb p : In p (sem_pairs how la lb) ->
+    (forall a, fst p = Some a -> In a la) /\ (forall b, snd p = Some b -> In b lb) /\ (fst p <> None \/ snd p <> None).
+  Proof.
+    unfold sem_pairs. rewrite !in_app_iff. intros [I|[I|I]].
+    - unfold pairs_inner in I. apply in_flat_map in I. destruct I as [a' [Ia I]]. apply in_map_iff in I. destruct I as [b' [<- I]].
+      apply filter_In in I. cbn [fst snd]. split; [intros a E; inversion E; subst; exact Ia|]. split; [intros b E; inversion E; subst; tauto|left; discriminate].
+    - destruct how; try contradiction; unfold pairs_left_only in I; apply in_flat_map in I; destruct I as [a' [Ia I]];
+        destruct (filter _ lb); try contradiction; destruct I as [<-|[]]; cbn [fst snd];
+        (split; [intros a E; inversion E; subst; exact Ia|]; split; [intros b E; discriminate|left; discriminate]).
+    - destruct how; try contradiction; unfold pairs_right_only in I; apply in_flat_map in I; destruct I as [b' [Ib I]];
+        destruct (filter _ la); try contradiction; destruct I as [<-|[]]; cbn [fst snd];
+        (split; [intros a E; discriminate|]; split; [intros b E; inversion E; subst; exact Ib|right; discriminate]).
+  Qed.
 End Pairs.
 
 Arguments pair : clear implicits.
 
-(* sem_pairs depends on the keys only through the match test *)
-Lemma sem_pairs_ext {A B} (lk lk' : A -> list val) (rk rk' : B -> list val) how la lb :
-  (forall a b, mt lk rk a b = mt lk' rk' a b) -> sem_pairs lk rk how la lb = sem_pairs lk' rk' how la lb.
+Lemma flat_map_ext_in {X Y} (f g : X -> list Y) l : (forall x, In x l -> f x = g x) -> flat_map f l = flat_map g l.
+Proof. induction l as [|a l IH]; intros H; simpl; [reflexivity|]. rewrite (H a (or_introl eq_refl)), IH; [reflexivity|]. intros x I. apply H. right. exact I. Qed.
+
+(* sem_pairs depends only on the match test, on the listed rows *)
+Lemma sem_pairs_ext_in {A B} (m m' : A -> B -> bool) how la lb :
+  (forall a b, In a la -> In b lb -> m a b = m' a b) -> sem_pairs m how la lb = sem_pairs m' how la lb.
 Proof.
   intros E. unfold sem_pairs, pairs_inner, pairs_left_only, pairs_right_only.
-  assert (forall a, filter (mt lk rk a) lb = filter (mt lk' rk' a) lb) as F1 by (intros a; apply filter_ext; intros b; apply E).
-  assert (forall b, filter (fun a => mt lk rk a b) la = filter (fun a => mt lk' rk' a b) la) as F2 by (intros b; apply filter_ext; intros a; apply E).
+  assert (forall a, In a la -> filter (m a) lb = filter (m' a) lb) as F1 by (intros a Ia; apply filter_ext_in; intros b Ib; apply E; assumption).
+  assert (forall b, In b lb -> filter (fun a => m a b) la = filter (fun a => m' a b) la) as F2 by (intros b Ib; apply filter_ext_in; intros a Ia; apply E; assumption).
   f_equal; [|f_equal].
-  - apply flat_map_ext. intros a. rewrite F1. reflexivity.
-  - destruct how; try reflexivity; apply flat_map_ext; intros a; rewrite F1; reflexivity.
-  - destruct how; try reflexivity; apply flat_map_ext; intros b; rewrite F2; reflexivity.
+  - apply flat_map_ext_in. intros a Ia. rewrite (F1 a Ia). reflexivity.
+  - destruct how; try reflexivity; apply flat_map_ext_in; intros a Ia; rewrite (F1 a Ia); reflexivity.
+  - destruct how; try reflexivity; apply flat_map_ext_in; intros b Ib; rewrite (F2 b Ib); reflexivity.
 Qed.
 
 Definition pmap {A B A' B'} (f : A -> A') (g : B -> B') (p : pair A B) : pair A' B' := (option_map f (fst p), option_map g (snd p)).
@@ -114,19 +142,19 @@ Proof. induction l as [|x l IH]; simpl; [reflexivity|]. rewrite IH. reflexivity.
 Lemma map_flat_map {X Y Z} (k : Y -> Z) (h : X -> list Y) l : map k (flat_map h l) = flat_map (fun x => map k (h x)) l.
 Proof. induction l as [|x l IH]; simpl; [reflexivity|]. rewrite map_app, IH. reflexivity. Qed.
 
-Lemma sem_pairs_map {A B A' B'} (f : A -> A') (g : B -> B') (lk : A' -> list val) (rk : B' -> list val) how la lb :
-  sem_pairs lk rk how (map f la) (map g lb) = map (pmap f g) (sem_pairs (fun a => lk (f a)) (fun b => rk (g b)) how la lb).
+Lemma sem_pairs_map {A B A' B'} (f : A -> A') (g : B -> B') (m : A' -> B' -> bool) how la lb :
+  sem_pairs m how (map f la) (map g lb) = map (pmap f g) (sem_pairs (fun a b => m (f a) (g b)) how la lb).
 Proof.
   unfold sem_pairs. rewrite !map_app. f_equal; [|f_equal].
   - unfold pairs_inner. rewrite flat_map_map, map_flat_map. apply flat_map_ext. intros a.
     rewrite filter_map_comm, !map_map. reflexivity.
-  - assert (pairs_left_only lk rk (map f la) (map g lb) = map (pmap f g) (pairs_left_only (fun a => lk (f a)) (fun b => rk (g b)) la lb)) as E.
+  - assert (pairs_left_only m (map f la) (map g lb) = map (pmap f g) (pairs_left_only (fun a b => m (f a) (g b)) la lb)) as E.
     { unfold pairs_left_only. rewrite flat_map_map, map_flat_map. apply flat_map_ext. intros a. rewrite filter_map_comm.
-      unfold mt. destruct (filter _ lb); reflexivity. }
+      destruct (filter _ lb); reflexivity. }
     destruct how; try reflexivity; exact E.
-  - assert (pairs_right_only lk rk (map f la) (map g lb) = map (pmap f g) (pairs_right_only (fun a => lk (f a)) (fun b => rk (g b)) la lb)) as E.
+  - assert (pairs_right_only m (map f la) (map g lb) = map (pmap f g) (pairs_right_only (fun a b => m (f a) (g b)) la lb)) as E.
     { unfold pairs_right_only. rewrite flat_map_map, map_flat_map. apply flat_map_ext. intros b. rewrite filter_map_comm.
-      unfold mt. destruct (filter _ la); reflexivity. }
+      destruct (filter _ la); reflexivity. }
     destruct how; try reflexivity; exact E.
 Qed.
 
@@ -141,36 +169,40 @@ Proof.
   induction l as [|x l IH]; simpl; [tauto|]. destruct (f x); simpl; [split; discriminate|exact IH].
 Qed.
 
-Lemma sem_join_as_pairs on_a on_b jt a b :
-  sem_join true on_a on_b jt a b
+Definition join_match (nm : bool) (ca cb on_a on_b : list string) (ra rb : list val) : bool :=
+  keys_match nm (key_of ca on_a ra) (key_of cb on_b rb).
+
+Lemma sem_join_as_pairs nm on_a on_b jt a b :
+  sem_join nm on_a on_b jt a b
   = mktable (cols a ++ filter (fun c => negb (mem c (cols a))) (cols b))
-            (map (sem_mk (cols a) (cols b)) (sem_pairs (key_of (cols a) on_a) (key_of (cols b) on_b) (how_of jt) (rows a) (rows b))).
+            (map (sem_mk (cols a) (cols b)) (sem_pairs (join_match nm (cols a) (cols b) on_a on_b) (how_of jt) (rows a) (rows b))).
 Proof.
   unfold sem_join. f_equal. unfold sem_pairs. rewrite !map_app. f_equal; [|f_equal].
   - rewrite inner_as_nested, map_flat_map. apply flat_map_ext. intros ra. rewrite map_flat_map. apply flat_map_ext. intros rb.
-    unfold keys_match, mt. cbn [orb andb]. destruct (keys_eqv _ _); reflexivity.
-  - assert (flat_map (fun ra => if existsb (fun rb => keys_match true (key_of (cols a) on_a ra) (key_of (cols b) on_b rb)) (rows b) then []
+    unfold join_match. destruct (keys_match nm _ _); reflexivity.
+  - assert (flat_map (fun ra => if existsb (fun rb => keys_match nm (key_of (cols a) on_a ra) (key_of (cols b) on_b rb)) (rows b) then []
                                else [sem_mk (cols a) (cols b) (Some ra, None)]) (rows a)
-            = map (sem_mk (cols a) (cols b)) (pairs_left_only (key_of (cols a) on_a) (key_of (cols b) on_b) (rows a) (rows b))) as E.
+            = map (sem_mk (cols a) (cols b)) (pairs_left_only (join_match nm (cols a) (cols b) on_a on_b) (rows a) (rows b))) as E.
     { unfold pairs_left_only. rewrite map_flat_map. apply flat_map_ext. intros ra.
       destruct (existsb _ (rows b)) eqn:Ex.
-      - destruct (filter (mt (key_of (cols a) on_a) (key_of (cols b) on_b) ra) (rows b)) eqn:Ef; [|reflexivity].
-        exfalso. apply existsb_filter_nil in Ef. unfold keys_match in Ex. cbn [orb andb] in Ex. unfold mt in Ef. congruence.
-      - apply existsb_filter_nil in Ex. unfold keys_match in Ex. cbn [orb andb] in Ex. unfold mt. rewrite Ex. reflexivity. }
+      - destruct (filter (join_match nm (cols a) (cols b) on_a on_b ra) (rows b)) eqn:Ef; [|reflexivity].
+        exfalso. apply existsb_filter_nil in Ef. unfold join_match in Ef. congruence.
+      - apply existsb_filter_nil in Ex. unfold join_match. rewrite Ex. reflexivity. }
     destruct jt; cbn [how_of]; try reflexivity; exact E.
-  - assert (flat_map (fun rb => if existsb (fun ra => keys_match true (key_of (cols a) on_a ra) (key_of (cols b) on_b rb)) (rows a) then []
+  - assert (flat_map (fun rb => if existsb (fun ra => keys_match nm (key_of (cols a) on_a ra) (key_of (cols b) on_b rb)) (rows a) then []
                                else [sem_mk (cols a) (cols b) (None, Some rb)]) (rows b)
-            = map (sem_mk (cols a) (cols b)) (pairs_right_only (key_of (cols a) on_a) (key_of (cols b) on_b) (rows a) (rows b))) as E.
+            = map (sem_mk (cols a) (cols b)) (pairs_right_only (join_match nm (cols a) (cols b) on_a on_b) (rows a) (rows b))) as E.
     { unfold pairs_right_only. rewrite map_flat_map. apply flat_map_ext. intros rb.
       destruct (existsb _ (rows a)) eqn:Ex.
-      - destruct (filter (fun ra => mt (key_of (cols a) on_a) (key_of (cols b) on_b) ra rb) (rows a)) eqn:Ef; [|reflexivity].
-        exfalso. apply existsb_filter_nil in Ef. unfold keys_match in Ex. cbn [orb andb] in Ex. unfold mt in Ef. congruence.
-      - apply existsb_filter_nil in Ex. unfold keys_match in Ex. cbn [orb andb] in Ex. unfold mt. rewrite Ex. reflexivity. }
+      - destruct (filter (fun ra => join_match nm (cols a) (cols b) on_a on_b ra rb) (rows a)) eqn:Ef; [|reflexivity].
+        exfalso. apply existsb_filter_nil in Ef. unfold join_match in Ef. congruence.
+      - apply existsb_filter_nil in Ex. unfold join_match. rewrite Ex. reflexivity. }
     destruct jt; cbn [how_of]; try reflexivity; exact E.
 Qed.
 
 Lemma merge_pairs_gen how L R lon ron :
-  merge_pairs how L R lon ron = gen_pairs (key_of (cols L) lon) (key_of (cols R) ron) how (rows L) (rows R).
+  merge_pairs how L R lon ron
+  = gen_pairs (fun ra rb => keys_eqv (key_of (cols L) lon ra) (key_of (cols R) ron rb)) (key_of (cols L) lon) (key_of (cols R) ron) how (rows L) (rows R).
 Proof. destruct how; reflexivity. Qed.
 
 (* ------------------------------------------------------------------ cells of a merged row *)
@@ -276,30 +308,28 @@ Proof.
   - rewrite <- (Hr c Mc), En. destruct (eq_dec x c) as [->|n]; [reflexivity|apply Hr, Ix].
 Qed.
 
+
 (* ------------------------------------------------------------------ the whole loop *)
 Section Loop.
   Context {X : Type}.
-  Variables (PP : list X) (g : X -> string -> val) (on_a names : list string) (sfx : string) (cols0 : list string).
+  Variables (PP : list X) (g : X -> string -> val) (names : list string) (sfx : string) (cols0 : list string).
 
-  Definition coal (done : list string) (x : string) : bool := mem x done && negb (mem x on_a).
+  (* the shared column x has a suffixed right copy (in the frame the loop starts from) *)
+  Definition kb (x : string) : bool := mem (sapp x sfx) cols0.
+  Definition coal (done : list string) (x : string) : bool := mem x done && kb x.
   Definition valD (done : list string) (p : X) (x : string) : val :=
     if coal done x then (if is_null (g p x) then g p (sapp x sfx) else g p x) else g p x.
-  Definition dropped (done : list string) : list string := map (fun c => sapp c sfx) (filter (fun c => negb (mem c on_a)) done).
+  Definition dropped (done : list string) : list string := map (fun c => sapp c sfx) (filter kb done).
   Definition JInv (F : table) (done : list string) : Prop :=
     width_ok F /\ cols F = filter (fun x => negb (mem x (dropped done))) cols0 /\
     Forall2 (fun rF p => forall x, In x (cols F) -> get (cols F) rF x = valD done p x) (rows F) PP.
 
-  Definition jstep (acc : option table) (c : string) : option table :=
-    r <- acc ;;
-    if mem c on_a then Some r
-    else is_null <- pd_isnull c r ;; r <- pd_loc_set_from is_null c (sapp c sfx) r ;; pd_del (sapp c sfx) r.
-
-  Lemma jstep_none cs : fold_left jstep cs None = None.
+  Lemma jstep_none cs : fold_left (jstep sfx) cs None = None.
   Proof. induction cs as [|c cs IH]; simpl; [reflexivity|exact IH]. Qed.
 
   Lemma coalesce_fold cs : forall done F F',
     (forall c, In c (done ++ cs) -> In c names /\ ~ In (sapp c sfx) names) -> NoDup (done ++ cs) ->
-    JInv F done -> fold_left jstep cs (Some F) = Some F' -> JInv F' (rev cs ++ done).
+    JInv F done -> fold_left (jstep sfx) cs (Some F) = Some F' -> JInv F' (rev cs ++ done).
   Proof.
     induction cs as [|c cs IH]; intros done F F' Hn Nd Inv H.
     - simpl in H. inversion H; subst. exact Inv.
@@ -310,57 +340,35 @@ Section Loop.
         apply in_app_iff in I. apply in_app_iff. destruct I as [I|I]; [left; exact I|right; right; exact I]. }
       assert (NoDup ((c :: done) ++ cs)) as Nd'.
       { cbn [app]. constructor; [apply NoDup_remove_2 in Nd; exact Nd|apply NoDup_remove_1 in Nd; exact Nd]. }
-      assert (JInv F (c :: done) \/ True) as _ by (right; exact I).
-      unfold jstep at 2 in H. cbn [obind] in H. destruct (mem c on_a) eqn:Mo.
-      + (* a key column: nothing happens *)
-        apply (IH (c :: done) F F' Hn' Nd'); [|exact H]. destruct Inv as [W [Cf Fr]]. split; [exact W|]. split.
-        * rewrite Cf. unfold dropped. cbn [filter]. rewrite Mo. reflexivity.
-        * eapply Forall2_weaken; [|exact Fr]. intros rF p Hr x Ix. rewrite (Hr x Ix). unfold valD, coal. cbn [mem].
-          destruct (eq_dec x c) as [->|n]; [rewrite Mo, !andb_false_r; reflexivity|reflexivity].
+      destruct Inv as [W [Cf Fr]].
+      (* the test `(c + suffix) in res.columns` sees what the starting frame had: no earlier round dropped this copy *)
+      assert (mem (sapp c sfx) (cols F) = kb c) as Ek.
+      { rewrite Cf. unfold kb. destruct (mem (sapp c sfx) cols0) eqn:M0.
+        - apply mem_In, filter_In. split; [apply mem_In, M0|]. apply negb_true_iff, mem_false. intros Id. unfold dropped in Id.
+          apply in_map_iff in Id. destruct Id as [c' [E' I']]. apply filter_In in I'. destruct I' as [I' _]. apply sapp_inj_l in E'. subst c'. contradiction.
+        - apply mem_false. intros I. apply filter_In in I. destruct I as [I _]. apply mem_In in I. congruence. }
+      unfold jstep at 2 in H. cbn [obind] in H. rewrite Ek in H. destruct (kb c) eqn:Kc.
       + destruct (is_null0 <- pd_isnull c F ;; r <- pd_loc_set_from is_null0 c (sapp c sfx) F ;; pd_del (sapp c sfx) r) as [F1|] eqn:E1;
           [|rewrite jstep_none in H; discriminate].
-        destruct Inv as [W [Cf Fr]]. destruct (coalesce_step F PP (valD done) c (sapp c sfx) F1 W Fr E1) as [Ic [Ic2 [W1 [C1 F1r]]]].
+        destruct (coalesce_step F PP (valD done) c (sapp c sfx) F1 W Fr E1) as [Ic [Ic2 [W1 [C1 F1r]]]].
         apply (IH (c :: done) F1 F' Hn' Nd'); [|exact H]. split; [exact W1|]. split.
-        * rewrite C1, Cf. unfold remove_elem. rewrite filter_filter. apply filter_ext. intros x. unfold dropped. cbn [filter]. rewrite Mo. cbn [negb map mem].
+        * rewrite C1, Cf. unfold remove_elem. rewrite filter_filter. apply filter_ext. intros x. unfold dropped. cbn [filter]. rewrite Kc. cbn [map mem].
           unfold eqb. destruct (eq_dec (sapp c sfx) x), (eq_dec x (sapp c sfx)); try congruence; cbn [negb]; [rewrite andb_false_r|rewrite andb_true_r]; reflexivity.
         * assert (In c names /\ ~ In (sapp c sfx) names) as [Icn Nc2] by (apply Hn; apply in_app_iff; right; left; reflexivity).
           assert (~ In (sapp c sfx) done) as N2d. { intros I. apply Nc2. apply (Hn (sapp c sfx)). apply in_app_iff. left. exact I. }
           eapply Forall2_weaken; [|exact F1r]. intros rF p Hr x Ix. rewrite (Hr x Ix). unfold valD, coal. cbn [mem].
           destruct (eq_dec x c) as [->|n].
-          -- replace (mem c done) with false by (symmetry; apply mem_false, Ncd). rewrite Mo. cbn [andb negb].
+          -- replace (mem c done) with false by (symmetry; apply mem_false, Ncd). rewrite Kc. cbn [andb].
              replace (mem (sapp c sfx) done) with false by (symmetry; apply mem_false, N2d). cbn [andb]. reflexivity.
           -- reflexivity.
+      + (* no suffixed copy: nothing happens *)
+        apply (IH (c :: done) F F' Hn' Nd'); [|exact H]. split; [exact W|]. split.
+        * rewrite Cf. unfold dropped. cbn [filter]. rewrite Kc. reflexivity.
+        * eapply Forall2_weaken; [|exact Fr]. intros rF p Hr x Ix. rewrite (Hr x Ix). unfold valD, coal. cbn [mem].
+          destruct (eq_dec x c) as [->|n]; [rewrite Kc, !andb_false_r; reflexivity|reflexivity].
   Qed.
 End Loop.
 
-(* ------------------------------------------------------------------ pairs of a merge are matches where both sides are present *)
-Lemma sem_pairs_matched {A B} (lk : A -> list val) (rk : B -> list val) how la lb a b :
-  In (Some a, Some b) (sem_pairs lk rk how la lb) -> mt lk rk a b = true.
-Proof.
-  unfold sem_pairs. rewrite !in_app_iff. intros [I|[I|I]].
-  - unfold pairs_inner in I. apply in_flat_map in I. destruct I as [a' [_ I]]. apply in_map_iff in I. destruct I as [b' [E I]].
-    inversion E; subst. apply filter_In in I. tauto.
-  - exfalso. destruct how; try contradiction; unfold pairs_left_only in I; apply in_flat_map in I; destruct I as [a' [_ I]];
-      destruct (filter _ lb); try contradiction; destruct I as [E|[]]; discriminate.
-  - exfalso. destruct how; try contradiction; unfold pairs_right_only in I; apply in_flat_map in I; destruct I as [b' [_ I]];
-      destruct (filter _ la); try contradiction; destruct I as [E|[]]; discriminate.
-Qed.
-Lemma sem_pairs_from {A B} (lk : A -> list val) (rk : B -> list val) how la lb p :
-  In p (sem_pairs lk rk how la lb) ->
-  (forall a, fst p = Some a -> In a la) /\ (forall b, snd p = Some b -> In b lb) /\ (fst p <> None \/ snd p <> None).
-Proof.
-  unfold sem_pairs. rewrite !in_app_iff. intros [I|[I|I]].
-  - unfold pairs_inner in I. apply in_flat_map in I. destruct I as [a' [Ia I]]. apply in_map_iff in I. destruct I as [b' [<- I]].
-    apply filter_In in I. cbn [fst snd]. split; [intros a E; inversion E; subst; exact Ia|]. split; [intros b E; inversion E; subst; tauto|left; discriminate].
-  - destruct how; try contradiction; unfold pairs_left_only in I; apply in_flat_map in I; destruct I as [a' [Ia I]];
-      destruct (filter _ lb); try contradiction; destruct I as [<-|[]]; cbn [fst snd];
-      (split; [intros a E; inversion E; subst; exact Ia|]; split; [intros b E; discriminate|left; discriminate]).
-  - destruct how; try contradiction; unfold pairs_right_only in I; apply in_flat_map in I; destruct I as [b' [Ib I]];
-      destruct (filter _ la); try contradiction; destruct I as [<-|[]]; cbn [fst snd];
-      (split; [intros a E; discriminate|]; split; [intros b E; inversion E; subst; exact Ib|right; discriminate]).
-Qed.
-
-(* equal keys: a null on one side means a null on the other *)
 Lemma keys_eqv_null_at (ka kb : list val) i : keys_eqv ka kb = true -> is_null (nth i ka VNull) = true -> nth i kb VNull = VNull.
 Proof.
   revert kb i. induction ka as [|x ka IH]; intros [|y kb] [|i] E N; simpl in *; try discriminate; try reflexivity.
@@ -368,22 +376,6 @@ Proof.
   - apply andb_true_iff in E. destruct E as [_ E]. apply (IH kb i E N).
 Qed.
 
-Lemma flat_map_ext_in {X Y} (f g : X -> list Y) l : (forall x, In x l -> f x = g x) -> flat_map f l = flat_map g l.
-Proof. induction l as [|a l IH]; intros H; simpl; [reflexivity|]. rewrite (H a (or_introl eq_refl)), IH; [reflexivity|]. intros x I. apply H. right. exact I. Qed.
-
-Lemma sem_pairs_ext_in {A B} (lk lk' : A -> list val) (rk rk' : B -> list val) how la lb :
-  (forall a b, In a la -> In b lb -> mt lk rk a b = mt lk' rk' a b) -> sem_pairs lk rk how la lb = sem_pairs lk' rk' how la lb.
-Proof.
-  intros E. unfold sem_pairs, pairs_inner, pairs_left_only, pairs_right_only.
-  assert (forall a, In a la -> filter (mt lk rk a) lb = filter (mt lk' rk' a) lb) as F1 by (intros a Ia; apply filter_ext_in; intros b Ib; apply E; assumption).
-  assert (forall b, In b lb -> filter (fun a => mt lk rk a b) la = filter (fun a => mt lk' rk' a b) la) as F2 by (intros b Ib; apply filter_ext_in; intros a Ia; apply E; assumption).
-  f_equal; [|f_equal].
-  - apply flat_map_ext_in. intros a Ia. rewrite (F1 a Ia). reflexivity.
-  - destruct how; try reflexivity; apply flat_map_ext_in; intros a Ia; rewrite (F1 a Ia); reflexivity.
-  - destruct how; try reflexivity; apply flat_map_ext_in; intros b Ib; rewrite (F2 b Ib); reflexivity.
-Qed.
-
-(* the cell of the reference join for a pair and a column *)
 Definition sem_cell (ca cb : list string) (p : pair (list val) (list val)) (c : string) : val :=
   let va := match fst p with Some r => if mem c ca then get ca r c else VNull | None => VNull end in
   let vb := match snd p with Some r => if mem c cb then get cb r c else VNull | None => VNull end in
@@ -407,323 +399,3 @@ Qed.
 
 Lemma Forall2_map_r {A B C} (P : A -> C -> Prop) (f : B -> C) l m : Forall2 P l (map f m) -> Forall2 (fun a b => P a (f b)) l m.
 Proof. revert l. induction m as [|b m IH]; intros l F; simpl in F; inversion F; subst; constructor; auto. Qed.
-
-(* ------------------------------------------------------------------ merge + deletions + loop against the reference join *)
-Section Core.
-  Variables (l r : table) (on_a on_b : list string) (how : merge_how) (sfx : string).
-  Hypothesis Wl : width_ok l.
-  Hypothesis Wr : width_ok r.
-  Let cl := cols l.
-  Let cr := cols r.
-  Let common := set_inter cl cr.
-  Let names := set_union cl cr.
-  Let semout := cl ++ filter (fun c => negb (mem c cl)) cr.
-  Hypothesis Hsfx : forall c, In c common -> ~ In (sapp c sfx) names.
-  Hypothesis Ha : forall c, In c on_a -> In c cl.
-  Hypothesis Hb : forall c, In c on_b -> In c cr.
-  Hypothesis Hclean : forall a b, In (a, b) (combine on_a on_b) -> In a cr -> a = b.
-  Hypothesis Hlen_ab : List.length on_a = List.length on_b.
-
-  (* the frames actually merged: l and r, possibly carrying one more (scratch) key column *)
-  Variables (L R : table) (lon ron dels : list string) (extL extR : list val -> list val).
-  Hypothesis HcL : cols L = cl ++ dels.
-  Hypothesis HcR : cols R = cr ++ dels.
-  Hypothesis HrL : rows L = map extL (rows l).
-  Hypothesis HrR : rows R = map extR (rows r).
-  Hypothesis HgL : forall ra c, In ra (rows l) -> In c cl -> get (cols L) (extL ra) c = get cl ra c.
-  Hypothesis HgR : forall rb c, In rb (rows r) -> In c cr -> get (cols R) (extR rb) c = get cr rb c.
-  Hypothesis Hdel : forall s, In s dels -> ~ In s names.
-  Hypothesis Hsn : forall c, same_named_key lon ron c = true <-> (In c dels \/ In (c, c) (combine on_a on_b)).
-  Hypothesis Hmt : forall ra rb, In ra (rows l) -> In rb (rows r) ->
-    keys_eqv (key_of (cols L) lon (extL ra)) (key_of (cols R) ron (extR rb)) = keys_eqv (key_of cl on_a ra) (key_of cr on_b rb).
-
-  Let kept := merge_right_cols lon ron (cols R).
-  Let ren := fun c => if mem c (cols L) then sapp c sfx else c.
-  Let out := merge_cols (cols L) (cols R) lon ron sfx.
-  Let PP := merge_pairs how L R lon ron.
-  Let SP0 := sem_pairs (key_of cl on_a) (key_of cr on_b) how (rows l) (rows r).
-  Let ext := pmap extL extR.
-  Let gg := g0 L R lon ron sfx.
-
-  Lemma in_names_l c : In c cl -> In c names.  Proof. intros I. apply In_set_union. left. exact I. Qed.
-  Lemma in_names_r c : In c cr -> In c names.  Proof. intros I. apply In_set_union. right. exact I. Qed.
-
-  Lemma PP_perm : Permutation PP (map ext SP0).
-  Proof.
-    unfold PP. rewrite merge_pairs_gen. eapply perm_trans; [apply gen_pairs_perm|]. rewrite HrL, HrR, sem_pairs_map.
-    unfold ext, SP0. rewrite (sem_pairs_ext_in (fun a => key_of (cols L) lon (extL a)) (key_of cl on_a) (fun b => key_of (cols R) ron (extR b)) (key_of cr on_b));
-      [apply Permutation_refl|]. intros a b Ia Ib. unfold mt. apply Hmt; assumption.
-  Qed.
-
-  (* the cells of the merged frame in terms of the ORIGINAL rows *)
-  Lemma fL_ext p0 c : In p0 SP0 -> In c cl ->
-    fL L R lon ron (ext p0) c = match fst p0 with
-                                | Some ra => get cl ra c
-                                | None => match snd p0 with
-                                          | Some rb => if same_named_key lon ron c then get cr rb c else VNull
-                                          | None => VNull
-                                          end
-                                end.
-  Proof.
-    intros I Ic. destruct (sem_pairs_from _ _ _ _ _ _ I) as [Fa [Fb _]]. unfold fL, ext, pmap. destruct p0 as [[ra|] [rb|]]; cbn [fst snd option_map].
-    - apply HgL; [apply Fa; reflexivity|exact Ic].
-    - apply HgL; [apply Fa; reflexivity|exact Ic].
-    - destruct (same_named_key lon ron c) eqn:Sn; [|reflexivity]. apply HgR; [apply Fb; reflexivity|].
-      apply Hsn in Sn. destruct Sn as [Sd|Sc]; [exfalso; apply (Hdel c Sd), in_names_l, Ic|]. apply Hb. eapply in_combine_r. exact Sc.
-    - reflexivity.
-  Qed.
-  Lemma fR_ext p0 c : In p0 SP0 -> In c cr -> fR R (ext p0) c = match snd p0 with Some rb => get cr rb c | None => VNull end.
-  Proof.
-    intros I Ic. destruct (sem_pairs_from _ _ _ _ _ _ I) as [_ [Fb _]]. unfold fR, ext, pmap. destruct p0 as [oa [rb|]]; cbn [fst snd option_map]; [|reflexivity].
-    apply HgR; [apply Fb; reflexivity|exact Ic].
-  Qed.
-
-  Lemma NoDup_cl : NoDup out -> NoDup cl.
-  Proof. intros Nout. unfold out, merge_cols in Nout. rewrite HcL in Nout. apply NoDup_app_l, NoDup_app_l in Nout. exact Nout. Qed.
-
-  (* a shared column that is not a left key is kept on the right under its suffixed name *)
-  Lemma shared_kept c : In c cl -> In c cr -> ~ In c on_a -> In c kept /\ ren c = sapp c sfx.
-  Proof.
-    intros Il Ir Na. split.
-    - unfold kept, merge_right_cols. apply filter_In. split; [rewrite HcR; apply in_app_iff; left; exact Ir|].
-      apply negb_true_iff. destruct (same_named_key lon ron c) eqn:Sn; [|reflexivity]. exfalso. apply Hsn in Sn. destruct Sn as [Sd|Sc].
-      + apply (Hdel c Sd), in_names_l, Il.
-      + apply Na. eapply in_combine_l. exact Sc.
-    - unfold ren. replace (mem c (cols L)) with true; [reflexivity|]. symmetry. apply mem_In. rewrite HcL. apply in_app_iff. left. exact Il.
-  Qed.
-  Lemma right_only_kept c : ~ In c cl -> In c cr -> In c kept /\ ren c = c.
-  Proof.
-    intros Nl Ir. assert (~ In c dels) as Nd by (intros I; apply (Hdel c I), in_names_r, Ir). split.
-    - unfold kept, merge_right_cols. apply filter_In. split; [rewrite HcR; apply in_app_iff; left; exact Ir|].
-      apply negb_true_iff. destruct (same_named_key lon ron c) eqn:Sn; [|reflexivity]. exfalso. apply Hsn in Sn. destruct Sn as [Sd|Sc]; [contradiction|].
-      apply Nl, Ha. eapply in_combine_l. exact Sc.
-    - unfold ren. replace (mem c (cols L)) with false; [reflexivity|]. symmetry. apply mem_false. rewrite HcL. intros I. apply in_app_iff in I. tauto.
-  Qed.
-
-  (* ---- the value the loop leaves in column x, against the cell of the reference join *)
-  Lemma final_cell p0 x : NoDup out -> In p0 SP0 -> In x semout ->
-    valD gg on_a sfx (rev common) (ext p0) x = sem_cell cl cr p0 x.
-  Proof.
-    intros Nout I Ix. unfold valD, coal, gg.
-    assert (mem x (rev common) = mem x common) as ->.
-    { destruct (mem x common) eqn:M; [apply mem_In, in_rev; rewrite rev_involutive; apply mem_In, M|].
-      apply mem_false. intros J. apply in_rev in J. apply mem_false in M. contradiction. }
-    unfold semout in Ix. apply in_app_iff in Ix.
-    destruct (sem_pairs_from _ _ _ _ _ _ I) as [Fa [Fb _]].
-    destruct (in_dec string_dec x cl) as [Il|Nl].
-    - (* a left column *)
-      assert (In x (cols L)) as IL by (rewrite HcL; apply in_app_iff; left; exact Il).
-      rewrite !(g0_left L R lon ron sfx _ x IL). rewrite (fL_ext p0 x I Il).
-      destruct (in_dec string_dec x cr) as [Ir|Nr].
-      + replace (mem x common) with true by (symmetry; apply mem_In, In_set_inter; split; assumption).
-        destruct (mem x on_a) eqn:Mo; cbn [andb negb].
-        * (* a key with the same name on both sides *)
-          apply mem_In in Mo. destruct (In_nth_error _ _ Mo) as [i Hi].
-          assert (In (x, x) (combine on_a on_b)) as Ixx.
-          { assert (exists b, In (x, b) (combine on_a on_b)) as [b Ib].
-            { clear -Mo Hlen_ab. revert on_b Hlen_ab. induction on_a as [|a t IH]; intros [|b ob] L; simpl in *; try discriminate; [contradiction|].
-              destruct Mo as [->|Mo]; [exists b; left; reflexivity|]. destruct (IH Mo ob) as [b' Ib']; [lia|]. exists b'. right. exact Ib'. }
-            pose proof (Hclean x b Ib Ir) as Eb. subst b. exact Ib. }
-          replace (same_named_key lon ron x) with true by (symmetry; apply Hsn; right; exact Ixx).
-          unfold sem_cell. apply mem_In in Il as Ml. apply mem_In in Ir as Mr. rewrite Ml, Mr.
-          destruct p0 as [[ra|] [rb|]]; cbn [fst snd].
-          -- destruct (is_null (get cl ra x)) eqn:En; [|reflexivity].
-             rewrite (key_pair_null cl cr on_a on_b ra rb x Ixx); [|apply (sem_pairs_matched _ _ _ _ _ _ _ I)|exact En].
-             destruct (get cl ra x); try discriminate. reflexivity.
-          -- destruct (is_null (get cl ra x)) eqn:En; [|reflexivity]. destruct (get cl ra x); try discriminate. reflexivity.
-          -- reflexivity.
-          -- reflexivity.
-        * (* a shared column that is coalesced *)
-          apply mem_false in Mo. destruct (shared_kept x Il Ir Mo) as [Ik Er]. rewrite <- Er.
-          rewrite (g0_right L R lon ron sfx Nout _ x Ik). rewrite (fR_ext p0 x I Ir).
-          assert (same_named_key lon ron x = false) as Sn.
-          { destruct (same_named_key lon ron x) eqn:Sn; [|reflexivity]. exfalso. apply Hsn in Sn. destruct Sn as [Sd|Sc].
-            - apply (Hdel x Sd), in_names_l, Il.
-            - apply Mo. eapply in_combine_l. exact Sc. }
-          rewrite Sn. unfold sem_cell. apply mem_In in Il as Ml. apply mem_In in Ir as Mr. rewrite Ml, Mr.
-          destruct p0 as [[ra|] [rb|]]; cbn [fst snd]; reflexivity.
-      + (* only on the left *)
-        replace (mem x common) with false by (symmetry; apply mem_false; intros J; apply In_set_inter in J; tauto). cbn [andb].
-        assert (same_named_key lon ron x = false) as Sn.
-        { destruct (same_named_key lon ron x) eqn:Sn; [|reflexivity]. exfalso. apply Hsn in Sn. destruct Sn as [Sd|Sc].
-          - apply (Hdel x Sd), in_names_l, Il.
-          - apply Nr, Hb. eapply in_combine_r. exact Sc. }
-        rewrite Sn. unfold sem_cell. apply mem_In in Il as Ml. rewrite Ml. replace (mem x cr) with false by (symmetry; apply mem_false, Nr).
-        destruct p0 as [[ra|] [rb|]]; cbn [fst snd]; try reflexivity; destruct (is_null (get cl ra x)) eqn:En; try reflexivity;
-          destruct (get cl ra x); try discriminate; reflexivity.
-    - (* only on the right *)
-      destruct Ix as [Ix|Ix]; [contradiction|]. apply filter_In in Ix. destruct Ix as [Ir _].
-      replace (mem x common) with false by (symmetry; apply mem_false; intros J; apply In_set_inter in J; tauto). cbn [andb].
-      destruct (right_only_kept x Nl Ir) as [Ik Er]. rewrite <- Er at 1.
-      rewrite (g0_right L R lon ron sfx Nout _ x Ik). rewrite (fR_ext p0 x I Ir).
-      unfold sem_cell. replace (mem x cl) with false by (symmetry; apply mem_false, Nl). apply mem_In in Ir as Mr. rewrite Mr.
-      destruct p0 as [[ra|] [rb|]]; cbn [fst snd]; reflexivity.
-  Qed.
-
-  Lemma sem_mk_get p0 x : get semout (sem_mk cl cr p0) x = if mem x semout then sem_cell cl cr p0 x else VNull.
-  Proof. unfold sem_mk. apply (get_map_cols (fun c => sem_cell cl cr p0 c)). Qed.
-
-  Lemma fold_del_length cs t t' : fold_left (fun acc c => r0 <- acc ;; pd_del c r0) cs (Some t) = Some t' -> width_ok t ->
-    Forall2 (fun r' r0 => forall x, In x (cols t') -> get (cols t') r' x = get (cols t) r0 x) (rows t') (rows t).
-  Proof.
-    intros H W. destruct (fold_del_rows _ _ _ H W) as [_ [_ [_ F]]]. eapply Forall2_weaken; [|exact F].
-    intros a b Hab x Ix. rewrite (Hab x). apply mem_In in Ix. rewrite Ix. reflexivity.
-  Qed.
-
-  Lemma core_refines x :
-    (res0 <- pd_merge how L R lon ron sfx ;;
-     res1 <- fold_left (fun acc s => r0 <- acc ;; pd_del s r0) dels (Some res0) ;;
-     fold_left (jstep on_a sfx) common (Some res1)) = Some x ->
-    refines x (mktable semout (map (sem_mk cl cr) SP0)) /\ width_ok x.
-  Proof.
-    unfold pd_merge. destruct (_ && _ && _ && _); [|discriminate]. fold out.
-    destruct (nodup_names out) eqn:Nd; cbn [obind]; [|discriminate]. fold PP.
-    assert (NoDup out) as Nout.
-    { clear -Nd. induction out as [|y t IH]; simpl in *; [constructor|]. apply andb_true_iff in Nd. destruct Nd as [N1 N2].
-      constructor; [apply mem_false, negb_true_iff, N1|apply IH, N2]. }
-    set (res0 := mktable out (map (merge_row (cols L) (cols R) lon ron) PP)).
-    assert (width_ok res0) as W0.
-    { unfold width_ok, res0. cbn [cols rows]. apply Forall_forall. intros r0 I. apply in_map_iff in I. destruct I as [p [<- _]].
-      apply (merge_row_length L R lon ron sfx). }
-    destruct (fold_left _ dels (Some res0)) as [res1|] eqn:Ed; cbn [obind]; [|discriminate].
-    destruct (fold_del_rows _ _ _ Ed W0) as [C1 [W1 [L1 _]]]. pose proof (fold_del_length _ _ _ Ed W0) as F1. cbn [cols rows] in C1, F1.
-    intros Hf.
-    assert (JInv PP gg on_a sfx (cols res1) res1 []) as J0.
-    { split; [exact W1|]. split; [unfold dropped; cbn [filter map mem negb]; rewrite filter_true; reflexivity|].
-      unfold res0 in F1. cbn [rows cols] in F1. apply Forall2_map_r in F1. eapply Forall2_weaken; [|exact F1].
-      intros a p Hap x0 Ix0. rewrite (Hap x0 Ix0). unfold valD, coal. cbn [mem andb]. reflexivity. }
-    assert (NoDup common) as Nc by (apply NoDup_filter, (NoDup_cl Nout)).
-    assert (forall c, In c ([] ++ common) -> In c names /\ ~ In (sapp c sfx) names) as Hn.
-    { intros c Ic. cbn [app] in Ic. split; [|apply Hsfx, Ic]. apply In_set_inter in Ic. apply in_names_l. tauto. }
-    pose proof (coalesce_fold PP gg on_a names sfx (cols res1) common [] res1 x Hn Nc J0 Hf) as [Wx [Cx Fx]]. rewrite app_nil_r in Cx, Fx.
-    split; [|exact Wx].
-    (* columns of the result *)
-    assert (forall c, In c semout -> In c (cols x)) as Sub.
-    { intros c Ic. rewrite Cx, C1. apply filter_In. split.
-      - apply filter_In. split.
-        + unfold semout in Ic. apply in_app_iff in Ic. unfold out, merge_cols. destruct Ic as [Ic|Ic].
-          * apply in_app_iff. left. rewrite HcL. apply in_app_iff. left. exact Ic.
-          * apply filter_In in Ic. destruct Ic as [Ir Nl]. apply negb_true_iff, mem_false in Nl. destruct (right_only_kept c Nl Ir) as [Ik Er].
-            apply in_app_iff. right. rewrite <- Er. apply in_map_iff. exists c. split; [reflexivity|exact Ik].
-        + apply negb_true_iff, mem_false. intros Id. apply (Hdel c Id). unfold semout in Ic. apply in_app_iff in Ic.
-          destruct Ic as [Ic|Ic]; [apply in_names_l, Ic|apply filter_In in Ic; apply in_names_r; tauto].
-      - apply negb_true_iff, mem_false. intros Id. unfold dropped in Id. apply in_map_iff in Id. destruct Id as [c0 [E0 I0]].
-        apply filter_In in I0. destruct I0 as [I0 _]. apply (proj2 (in_rev _ _)) in I0.
-        apply (Hsfx c0 I0). rewrite E0. unfold semout in Ic. apply in_app_iff in Ic.
-        destruct Ic as [Ic|Ic]; [apply in_names_l, Ic|apply filter_In in Ic; apply in_names_r; tauto]. }
-    assert (forall c, In c (cols x) -> In c semout) as Sup.
-    { intros c Ic. rewrite Cx, C1 in Ic. apply filter_In in Ic. destruct Ic as [Ic Nd0]. apply filter_In in Ic. destruct Ic as [Io Ndel].
-      apply negb_true_iff, mem_false in Ndel. apply negb_true_iff, mem_false in Nd0.
-      unfold out, merge_cols in Io. apply in_app_iff in Io. unfold semout. apply in_app_iff. destruct Io as [Io|Io].
-      - rewrite HcL in Io. apply in_app_iff in Io. destruct Io as [Io|Io]; [left; exact Io|contradiction].
-      - apply in_map_iff in Io. destruct Io as [c0 [E0 Ik]]. unfold kept, merge_right_cols in Ik. apply filter_In in Ik. destruct Ik as [Ir0 Nsn].
-        rewrite HcR in Ir0. apply in_app_iff in Ir0. apply negb_true_iff in Nsn.
-        destruct Ir0 as [Ir0|Id0]; [|exfalso; assert (same_named_key lon ron c0 = true) as T by (apply Hsn; left; exact Id0); congruence].
-        destruct (in_dec string_dec c0 cl) as [Il0|Nl0].
-        + (* a shared column: its suffixed copy was dropped unless it is a left key, and then it is the same-named key *)
-          exfalso. destruct (in_dec string_dec c0 on_a) as [Ia0|Na0].
-          * assert (exists b, In (c0, b) (combine on_a on_b)) as [b Ib].
-            { clear -Ia0 Hlen_ab. revert on_b Hlen_ab. induction on_a as [|a t IH]; intros [|b ob] Ln; simpl in *; try discriminate; [contradiction|].
-              destruct Ia0 as [->|Ia0]; [exists b; left; reflexivity|]. destruct (IH Ia0 ob) as [b' Ib']; [lia|]. exists b'. right. exact Ib'. }
-            pose proof (Hclean c0 b Ib Ir0) as Eb. subst b.
-            assert (same_named_key lon ron c0 = true) as T by (apply Hsn; right; exact Ib). congruence.
-          * apply Nd0. unfold dropped. apply in_map_iff. exists c0. split.
-            -- rewrite <- E0. replace (mem c0 (cols L)) with true; [reflexivity|]. symmetry. apply mem_In. rewrite HcL. apply in_app_iff. left. exact Il0.
-            -- apply filter_In. split; [apply (proj1 (in_rev _ _)); apply In_set_inter; split; assumption|].
-               apply negb_true_iff, mem_false, Na0.
-        + right. assert (mem c0 (cols L) = false) as Mf.
-          { apply mem_false. rewrite HcL. intros I. apply in_app_iff in I. destruct I as [I|I]; [contradiction|apply (Hdel c0 I), in_names_r, Ir0]. }
-          rewrite Mf in E0. subst c.
-          apply filter_In. split; [exact Ir0|]. apply negb_true_iff, mem_false, Nl0. }
-    (* the rows *)
-    exists (mktable semout (map (fun p => map (fun c => valD gg on_a sfx (rev common) p c) semout) PP)). split; [|split].
-    - split; cbn [cols rows]; [intros c; split; [apply Sup|apply Sub]|].
-      rewrite <- (map_id (rows x)). revert Fx. generalize (rows x) as rs. generalize PP as pp. intros pp rs Fx.
-      induction Fx as [|a p rs pp Hap Fx IH]; cbn [map]; constructor; [|exact IH].
-      intros c. rewrite (get_map_cols (fun c0 => valD gg on_a sfx (rev common) p c0)). destruct (mem c semout) eqn:M.
-      + apply Hap. apply Sub. apply mem_In, M.
-      + apply get_absent. intros Ic. apply Sup in Ic. apply mem_In in Ic. congruence.
-    - reflexivity.
-    - cbn [rows]. eapply perm_trans; [apply Permutation_map, PP_perm|]. rewrite map_map.
-      assert (map (fun x0 => map (fun c => valD gg on_a sfx (rev common) (ext x0) c) semout) SP0 = map (sem_mk cl cr) SP0) as ->; [|apply Permutation_refl].
-      apply map_ext_in. intros p0 I0. unfold sem_mk. apply map_ext_in. intros c Ic. apply (final_cell p0 c Nout I0 Ic).
-  Qed.
-End Core.
-
-(* ------------------------------------------------------------------ _natural_join_step *)
-Lemma same_named_spec lon ron c : same_named_key lon ron c = true <-> In (c, c) (combine lon ron).
-Proof.
-  unfold same_named_key. rewrite existsb_exists. split.
-  - intros [[a b] [I E]]. cbn [fst snd] in E. apply andb_true_iff in E. destruct E as [E1 E2].
-    apply String.eqb_eq in E1. apply String.eqb_eq in E2. subst. exact I.
-  - intros I. exists (c, c). split; [exact I|]. cbn [fst snd]. rewrite String.eqb_refl. reflexivity.
-Qed.
-
-Lemma px_join_refines declared on_a on_b jt l r x :
-  width_ok l -> width_ok r ->
-  (forall c, In c on_a -> In c (cols l)) -> (forall c, In c on_b -> In c (cols r)) -> List.length on_a = List.length on_b ->
-  (forall a b, In (a, b) (combine on_a on_b) -> In a (cols r) -> a = b) ->
-  same_set declared (cols l ++ filter (fun c => negb (mem c (cols l))) (cols r)) ->
-  px_join declared on_a on_b jt l r = Some x -> refines x (sem_join true on_a on_b jt l r) /\ width_ok x.
-Proof.
-  intros Wl Wr Ha Hb Hlen Hclean Sd. unfold px_join. rewrite sem_join_as_pairs.
-  destruct (Nat.eqb (nrows l) 0 && Nat.eqb (nrows r) 0) eqn:E0.
-  - (* both sides empty *)
-    intros H. inversion H; subst x. apply andb_true_iff in E0. destruct E0 as [El Er]. apply Nat.eqb_eq in El, Er. unfold nrows in El, Er.
-    apply length_zero_nil in El. apply length_zero_nil in Er. rewrite El, Er.
-    split; [|unfold width_ok, pd_empty_frame; cbn [rows]; constructor].
-    apply refines_of_eqv. unfold pd_empty_frame. split; cbn [cols rows]; [exact Sd|].
-    destruct jt; cbn; constructor.
-  - set (common := set_inter (cols l) (cols r)). set (names := set_union (cols l) (cols r)). set (sfx := right_suffix common names).
-    assert (forall c, In c common -> ~ In (sapp c sfx) names) as Hsfx by (intros c Ic; apply right_suffix_fresh, Ic).
-    destruct on_a as [|a0 on_a'] eqn:Ea.
-    + (* empty `on`: a constant scratch key in both frames *)
-      destruct on_b as [|b0 on_b']; [|discriminate]. set (S := unused_column_name base_merge_col names).
-      pose proof (unused_column_name_fresh base_merge_col names) as FS. fold S in FS.
-      assert (~ In S (cols l)) as Sl by (intros I; apply FS, In_set_union; left; exact I).
-      assert (~ In S (cols r)) as Sr by (intros I; apply FS, In_set_union; right; exact I).
-      intros H.
-      assert (forall A (f : table -> option A) (t0 : table), (let res := clean_copy t0 in f res) = f t0) as CC by reflexivity.
-      pose proof (core_refines l r [] [] (how_of jt) sfx Hsfx Ha Hb Hclean Hlen
-                    (pd_set_scalar S vone l) (pd_set_scalar S vone r) [S] [S] [S]
-                    (fun ra => set_cell (cols l) ra S vone) (fun rb => set_cell (cols r) rb S vone)) as CR.
-      cbn zeta in H.
-      destruct (pd_merge (how_of jt) (pd_set_scalar S vone l) (pd_set_scalar S vone r) [S] [S] sfx) as [res0|] eqn:Em; cbn [obind] in H; [|discriminate].
-      unfold clean_copy, pd_reset_index in H.
-      destruct (pd_del S res0) as [res1|] eqn:Ed; cbn [obind] in H; [|discriminate].
-      destruct (fold_left _ common (Some res1)) as [res2|] eqn:Ef; cbn [obind] in H; [|discriminate]. inversion H; subst x. clear H.
-      apply CR; clear CR.
-      * unfold pd_set_scalar. cbn [cols]. apply add_end_new, Sl.
-      * unfold pd_set_scalar. cbn [cols]. apply add_end_new, Sr.
-      * reflexivity.
-      * reflexivity.
-      * intros ra c Ira Ic. unfold pd_set_scalar. cbn [cols]. rewrite (add_end_new _ _ Sl), (set_cell_new _ _ _ _ Sl).
-        apply get_app_l; [|exact Ic]. unfold width_ok in Wl. rewrite Forall_forall in Wl. apply Wl, Ira.
-      * intros rb c Irb Ic. unfold pd_set_scalar. cbn [cols]. rewrite (add_end_new _ _ Sr), (set_cell_new _ _ _ _ Sr).
-        apply get_app_l; [|exact Ic]. unfold width_ok in Wr. rewrite Forall_forall in Wr. apply Wr, Irb.
-      * intros s [<-|[]]. exact FS.
-      * intros c. rewrite same_named_spec. cbn [combine In]. split; [intros [E|[]]; inversion E; left; left; reflexivity|].
-        intros [[->|[]]|[]]. left. reflexivity.
-      * intros ra rb Ira Irb. unfold pd_set_scalar. cbn [cols key_of map]. rewrite (add_end_new _ _ Sl), (add_end_new _ _ Sr).
-        rewrite (set_cell_new _ _ _ _ Sl), (set_cell_new _ _ _ _ Sr).
-        unfold width_ok in Wl, Wr. rewrite Forall_forall in Wl, Wr.
-        rewrite (get_app_r _ _ _ _ _ (Wl ra Ira) Sl), (get_app_r _ _ _ _ _ (Wr rb Irb) Sr).
-        unfold get. cbn [index_of]. destruct (eq_dec S S); [|congruence]. reflexivity.
-      * cbn [obind fold_left]. rewrite Ed. cbn [obind]. exact Ef.
-    + (* keyed join *)
-      cbv beta iota zeta. rewrite <- Ea in *. clear Ea a0 on_a'. intros H.
-      destruct (pd_merge (how_of jt) l r on_a on_b sfx) as [res0|] eqn:Em; cbn [obind] in H; [|discriminate].
-      unfold clean_copy, pd_reset_index in H.
-      destruct (fold_left _ common (Some res0)) as [res2|] eqn:Ef; cbn [obind] in H; [|discriminate]. inversion H; subst x. clear H.
-      apply (core_refines l r on_a on_b (how_of jt) sfx Hsfx Ha Hb Hclean Hlen l r on_a on_b [] (fun ra => ra) (fun rb => rb)).
-      * rewrite app_nil_r. reflexivity.
-      * rewrite app_nil_r. reflexivity.
-      * rewrite map_id. reflexivity.
-      * rewrite map_id. reflexivity.
-      * reflexivity.
-      * reflexivity.
-      * intros s [].
-      * intros c. rewrite same_named_spec. cbn [In]. tauto.
-      * reflexivity.
-      * rewrite Em. cbn [obind fold_left]. exact Ef.
-Qed.
